@@ -44,6 +44,7 @@ func gen(t *rapid.T) Case {
 		CliDirect:     rapid.Bool().Draw(t, "cli_direct"),
 		Link:          "frame",
 	}
+	kit.DrawBuffers(t, &c.M)
 	c.Concurrent = rapid.IntRange(0, 3).Draw(t, "concurrent") > 0
 	n := rapid.IntRange(2, 40).Draw(t, "ncalls")
 	if rapid.Bool().Draw(t, "few") {
